@@ -5,7 +5,7 @@ from __future__ import annotations
 import ast
 
 from sa.cfg import all_paths_pass, dominators, reachable, reaches, specialize, test_atoms
-from sa.db import AnalysisError, ancestors, dotted, src, walk_local
+from sa.db import AnalysisError, ancestors, bind_args, dotted, src, walk_local
 from sa.model import contains, enclosing, is_processor_call, is_user_func_call
 from sa.variants import Variant, replace_once, sub_first, sub_once
 
@@ -50,6 +50,7 @@ def run(ctx) -> None:
     rep.rule("C08.R5", "missing inputs are reported by raising MissingInputError", floor=2)
     rep.rule("C08.R6", "inner bound values enter the specification only under inputs of their wrapper", floor=2)
     rep.rule("C08.R7", "a node counts as bypassed only if a non-empty set of its outputs is provided", floor=2)
+    rep.rule("C08.R9", "a run-time recomputation of the specification is fed the same raw graph state as the cached one", floor=1)
     rep.rule("C08.R8", "every reduction of the required set that validation derives from bound values alone is also made by the reported specification", floor=1)
 
     check_validate_first(ctx, "C08.R1")
@@ -240,6 +241,40 @@ def run(ctx) -> None:
                 ok, why = False, f"'{src(key)}' at line {n.lineno} is merged into the bound mapping without being one of the wrapper's inputs: an inner binding outside the wrapper's interface makes an unrelated outer input count as provided"
     rep.add("C08.R6", f"{cb.qname}:keys-are-wrapper-inputs", ok, cb.loc(), why)
     check_inner_bound_merge_complete(ctx, "C08.R6")
+    check_spec_recomputation_inputs(ctx, "C08.R9")
+
+
+def check_spec_recomputation_inputs(ctx, rule: str) -> None:
+    """Every call of compute_input_spec is fed the graph's own raw state — the same attributes the
+    cached Graph.inputs passes (nodes, nx graph, the graph's *own* bindings, entry points)."""
+    db, rep = ctx.db, ctx.rep
+    cis = db.func("graph.input_spec.compute_input_spec")
+    g = db.cls("graph.core.Graph")
+    ref_f = g.methods["inputs"]
+    ref = None
+    sites = []
+    for f in db.all_funcs():
+        for c in db.calls_in(f):
+            if cis.name in call_names(db, c, f):
+                b = bind_args(c, cis)
+                sites.append((f, c, b))
+                if f is ref_f:
+                    ref = b
+    if ref is None or len(sites) < 2:
+        raise AnalysisError("compute_input_spec call sites not found")
+    def attr_of(e):
+        return e.attr if isinstance(e, ast.Attribute) else None
+    for f, c, b in sites:
+        if f is ref_f:
+            continue
+        diffs = []
+        for p in ("nodes", "nx_graph", "bound", "entrypoints"):
+            pa = [k for k in ref if k == p or k.startswith(p)]
+            for k in pa:
+                if k in b and attr_of(ref[k]) is not None and attr_of(b[k]) != attr_of(ref[k]):
+                    diffs.append(f"{k}: '{src(b[k])}' (Graph.inputs passes '.{attr_of(ref[k])}')")
+        ok = not diffs
+        rep.add(rule, f"{f.qname}:compute_input_spec-arguments", ok, f"{f.module.rel}:{c.lineno}", "recomputation receives the graph's own nodes, nx graph, direct bindings and entry points" if ok else f"the specification is recomputed from different state than the cached one — {'; '.join(diffs)}: e.g. the merged inputs.bound contains bindings of nested graphs that are outside a narrower selection, so an omitted required input is accepted")
 
 
 def check_inner_bound_merge_complete(ctx, rule: str) -> None:
@@ -260,6 +295,31 @@ def check_inner_bound_merge_complete(ctx, rule: str) -> None:
     ok = bool(outer) and bool(inner) and bool(val) and must_reach_in_iteration(cfg, outer[0], inner, val)
     # the inner bound mapping consulted is the inherited one (inputs.bound), not the wrapper graph's direct bindings
     uses_spec = any(isinstance(n, ast.Attribute) and n.attr == "bound" and isinstance(n.value, ast.Attribute) and n.value.attr == "inputs" for n in walk_local(cb.node))
+    # the graph's own bound values are carried over in full: the returned mapping starts as an
+    # unfiltered copy of the `bound` parameter and nothing is ever removed from it
+    bp = (cb.param_names + ["", ""])[1]
+    rets = [n.value for n in walk_local(cb.node) if isinstance(n, ast.Return) and n.value is not None]
+    full = False
+    why_full = "the result does not start as a full copy of the graph's own bound values"
+    if rets and all(isinstance(r, ast.Name) for r in rets):
+        acc = rets[0].id
+        defs = db.local_defs(cb).get(acc, [])
+        inits = [d.value for d in defs if isinstance(d, (ast.Assign, ast.AnnAssign)) and d.value is not None]
+        def is_full_copy(v: ast.AST) -> bool:
+            if isinstance(v, ast.Call) and dotted(v.func) in ("dict", "copy.copy") and len(v.args) == 1 and src(v.args[0]) == bp and not v.keywords:
+                return True
+            if isinstance(v, ast.Call) and isinstance(v.func, ast.Attribute) and v.func.attr == "copy" and src(v.func.value) == bp:
+                return True
+            if isinstance(v, ast.Dict) and any(k is None and src(x) == bp for k, x in zip(v.keys, v.values)):
+                return True
+            if isinstance(v, ast.DictComp) and len(v.generators) == 1 and not v.generators[0].ifs and src(v.generators[0].iter) == f"{bp}.items()" and isinstance(v.generators[0].target, ast.Tuple) and [src(e) for e in v.generators[0].target.elts] == [src(v.key), src(v.value)]:
+                return True
+            return False
+        full = len(inits) == 1 and is_full_copy(inits[0])
+        removed = [x for x in walk_local(cb.node) if (isinstance(x, ast.Delete) and any(isinstance(t, ast.Subscript) and src(t.value) == acc for t in x.targets)) or (isinstance(x, ast.Call) and isinstance(x.func, ast.Attribute) and x.func.attr in ("pop", "popitem", "clear") and src(x.func.value) == acc)]
+        if full and removed:
+            full, why_full = False, "entries are removed from the merged bound mapping"
+    rep.add(rule, f"{cb.qname}:own-bound-values-complete", full, cb.loc(), "every value bound on the graph itself is in the mapping the runners resolve BOUND values from (scope narrowing by select/entry points never drops a binding)" if full else f"{why_full}: a node outside the default selection still runs, but would no longer see its bound value (signature default wins, or the node never becomes ready)")
     rep.add(rule, f"{cb.qname}:every-wrapper-merged", ok and uses_spec, cb.loc(), "for every nested-graph node the inherited bound values (inner inputs.bound) are merged — the only guard is the node kind" if ok and uses_spec else "inner bound values are merged only under an additional condition (or from the wrapper graph's direct bindings): bindings inherited from deeper nesting levels stop surfacing and a ready node finds no value")
 
 
